@@ -94,6 +94,15 @@ def w_family(ctx, rng, idx):
     T[index] = rng.uniform(lo, hi, size=m)
     call('transform.%s.__call__' % fam, f, T, prop=P)
     call('transform.%s.partial' % fam, f.partial, T, index, prop=P, refusals=refus)
+    # the same preallocated batch buffer filled with the next batch of points (and a second view of that memory): results must
+    # follow the current contents of the array, not its identity
+    for _ in range(2):
+        monitors_basis.RETAINED.clear()  # (results that are views of the caller's buffer - Identity returns t[index] - change with it: not the library's doing)
+        T[...] = rng.uniform(-2, 2, size=(dim, m))
+        T[index] = rng.uniform(lo, hi, size=m)
+        view = T[:, :] if rng.random() < 0.5 else T
+        call('transform.%s.__call__' % fam, f, view, prop=P, tags=['buffer_reused'])
+        call('transform.%s.partial' % fam, f.partial, view, index, prop=P, refusals=refus, tags=['buffer_reused'])
     if idx < 9:
         ctx.sample({'workload': 'family', 'family': fam, 'dimension': dim, 'index': index, 'params': monitors_basis._params(f)})
 
